@@ -516,3 +516,216 @@ theorem get_complete_counterexample :
    ⟨some 4, -9000, 1000, ()⟩, by decide, by decide, by decide, by decide⟩
 
 end Aw.Store.Sqlite
+
+/-! ## memory -/
+namespace Aw.Store.Memory
+open Aw Aw.Store Aw.PySort
+variable {D : Type}
+
+/-- the events a read selects, in result order: newest first, ties in reverse list order -/
+def selected (evs : List (Ev D)) (st en : Option Int) : List (Ev D) :=
+  ((sortBy (fun x => x.ts) evs).reverse).filter (inWindow st en)
+
+/-- closed form of `get_events` on an existing bucket -/
+theorem getEvents_eq (s : St D) (b : String) (m : Meta) (evs : List (Ev D))
+    (hv : view s b = some (m, evs)) (limit : Int) (st en : Option Int) :
+    getEvents s b limit st en = .ok (applyLimit limit (selected evs st en)) := by
+  have hl : lookup s b = some (m, evs) := hv
+  unfold getEvents selected
+  simp only [hl]
+  cases st with
+  | none =>
+    cases en with
+    | none =>
+      have : ∀ l : List (Ev D), l.filter (inWindow none none) = l :=
+        fun l => List.filter_eq_self.mpr (fun _ _ => rfl)
+      simp only [this]
+    | some z =>
+      have : (inWindow none (some z) : Ev D → Bool) = fun x => decide (x.ts ≤ z) := by
+        funext x; simp [inWindow]
+      simp only [this]
+  | some a =>
+    cases en with
+    | none =>
+      have : (inWindow (some a) none : Ev D → Bool) = fun x => decide (a ≤ x.ts + x.dur) := by
+        funext x; simp [inWindow]
+      simp only [this]
+    | some z =>
+      have : (inWindow (some a) (some z) : Ev D → Bool) =
+          fun x => decide (x.ts ≤ z) && decide (a ≤ x.ts + x.dur) := by
+        funext x; simp [inWindow, Bool.and_comm]
+      simp only [this, List.filter_filter]
+
+/-- the only error is `KeyError`, raised exactly when the bucket is missing -/
+theorem getEvents_error_iff (s : St D) (b : String) (limit : Int) (st en : Option Int) (e : Err) :
+    getEvents s b limit st en = .error e ↔ e = .keyError ∧ view s b = none := by
+  cases hv : view s b with
+  | none =>
+    have hl : lookup s b = none := hv
+    unfold getEvents; simp only [hl]
+    constructor
+    · intro h; cases h; simp
+    · rintro ⟨rfl, _⟩; rfl
+  | some p =>
+    obtain ⟨m, evs⟩ := p
+    rw [getEvents_eq s b m evs hv]
+    simp
+
+theorem getEventcount_eq (s : St D) (b : String) (m : Meta) (evs : List (Ev D))
+    (hv : view s b = some (m, evs)) (st en : Option Int) :
+    getEventcount s b st en = .ok (evs.filter (inWindow st en)).length := by
+  have hl : lookup s b = some (m, evs) := hv
+  unfold getEventcount; simp only [hl]
+
+theorem getEventcount_error_iff (s : St D) (b : String) (st en : Option Int) (e : Err) :
+    getEventcount s b st en = .error e ↔ e = .keyError ∧ view s b = none := by
+  cases hv : view s b with
+  | none =>
+    have hl : lookup s b = none := hv
+    unfold getEventcount; simp only [hl]
+    constructor
+    · intro h; cases h; simp
+    · rintro ⟨rfl, _⟩; rfl
+  | some p =>
+    obtain ⟨m, evs⟩ := p
+    rw [getEventcount_eq s b m evs hv]
+    simp
+
+theorem mem_selected (evs : List (Ev D)) (st en : Option Int) (x : Ev D) :
+    x ∈ selected evs st en ↔ x ∈ evs ∧ inWindow st en x = true := by
+  unfold selected
+  rw [List.mem_filter, List.mem_reverse, mem_sortBy]
+
+theorem selected_sorted (evs : List (Ev D)) (st en : Option Int) :
+    List.Pairwise (fun a b => b.ts ≤ a.ts) (selected evs st en) := by
+  unfold selected
+  apply List.Pairwise.filter
+  rw [List.pairwise_reverse]
+  exact sortBy_sorted (fun x : Ev D => x.ts) evs
+
+theorem length_selected (evs : List (Ev D)) (st en : Option Int) :
+    (selected evs st en).length = (evs.filter (inWindow st en)).length := by
+  unfold selected
+  exact (((List.reverse_perm _).trans (sortBy_perm _ evs)).filter _).length_eq
+
+/-- soundness: every returned event is a stored event of the bucket and lies in the window -/
+theorem get_sound (s : St D) (b : String) (limit : Int) (st en : Option Int) (r : List (Ev D))
+    (hr : getEvents s b limit st en = .ok r) (x : Ev D) (hx : x ∈ r) :
+    ∃ m es, view s b = some (m, es) ∧ x ∈ es ∧ inWindow st en x = true := by
+  cases hv : view s b with
+  | none =>
+    have := (getEvents_error_iff s b limit st en .keyError).mpr ⟨rfl, hv⟩
+    rw [this] at hr; cases hr
+  | some p =>
+    obtain ⟨m, evs⟩ := p
+    rw [getEvents_eq s b m evs hv] at hr
+    cases hr
+    have := (mem_selected evs st en x).mp (mem_of_mem_applyLimit hx)
+    exact ⟨m, evs, rfl, this.1, this.2⟩
+
+/-- completeness: without a limit every stored event in the window is returned -/
+theorem get_complete (s : St D) (b : String) (limit : Int) (hl : limit < 0) (st en : Option Int)
+    (m : Meta) (es : List (Ev D)) (hv : view s b = some (m, es))
+    (e : Ev D) (he : e ∈ es) (hw : inWindow st en e = true) :
+    ∃ r, getEvents s b limit st en = .ok r ∧ e ∈ r := by
+  refine ⟨_, getEvents_eq s b m es hv limit st en, ?_⟩
+  rw [applyLimit_neg _ hl]
+  exact (mem_selected es st en e).mpr ⟨he, hw⟩
+
+/-- results are ordered by timestamp descending -/
+theorem get_sorted (s : St D) (b : String) (limit : Int) (st en : Option Int) (r : List (Ev D))
+    (hr : getEvents s b limit st en = .ok r) :
+    List.Pairwise (fun a b => b.ts ≤ a.ts) r := by
+  cases hv : view s b with
+  | none =>
+    have := (getEvents_error_iff s b limit st en .keyError).mpr ⟨rfl, hv⟩
+    rw [this] at hr; cases hr
+  | some p =>
+    obtain ⟨m, evs⟩ := p
+    rw [getEvents_eq s b m evs hv] at hr
+    cases hr
+    exact List.Pairwise.sublist (applyLimit_sublist _ _) (selected_sorted evs st en)
+
+theorem get_limit_zero (s : St D) (b : String) (st en : Option Int) (r : List (Ev D))
+    (hr : getEvents s b 0 st en = .ok r) : r = [] := by
+  cases hv : view s b with
+  | none =>
+    have := (getEvents_error_iff s b 0 st en .keyError).mpr ⟨rfl, hv⟩
+    rw [this] at hr; cases hr
+  | some p =>
+    obtain ⟨m, evs⟩ := p
+    rw [getEvents_eq s b m evs hv, applyLimit_zero] at hr
+    cases hr; rfl
+
+theorem get_limit_pos (s : St D) (b : String) (limit : Int) (hl : 0 < limit) (st en : Option Int) :
+    getEvents s b limit st en = (getEvents s b (-1) st en).map (fun l => l.take limit.toNat) := by
+  cases hv : view s b with
+  | none =>
+    rw [(getEvents_error_iff s b limit st en .keyError).mpr ⟨rfl, hv⟩,
+        (getEvents_error_iff s b (-1) st en .keyError).mpr ⟨rfl, hv⟩]; rfl
+  | some p =>
+    obtain ⟨m, evs⟩ := p
+    rw [getEvents_eq s b m evs hv, getEvents_eq s b m evs hv, applyLimit_pos_eq_take _ hl]; rfl
+
+theorem get_limit_neg (s : St D) (b : String) (limit : Int) (hl : limit < 0) (st en : Option Int) :
+    getEvents s b limit st en = getEvents s b (-1) st en := by
+  cases hv : view s b with
+  | none =>
+    rw [(getEvents_error_iff s b limit st en .keyError).mpr ⟨rfl, hv⟩,
+        (getEvents_error_iff s b (-1) st en .keyError).mpr ⟨rfl, hv⟩]
+  | some p =>
+    obtain ⟨m, evs⟩ := p
+    rw [getEvents_eq s b m evs hv, getEvents_eq s b m evs hv, applyLimit_neg _ hl,
+        applyLimit_neg _ (by omega)]
+
+/-- the count is the number of events an unlimited read with the same arguments returns
+    (and fails exactly when the read fails) -/
+theorem count_eq (s : St D) (b : String) (st en : Option Int) :
+    getEventcount s b st en = (getEvents s b (-1) st en).map List.length := by
+  cases hv : view s b with
+  | none =>
+    rw [(getEvents_error_iff s b (-1) st en .keyError).mpr ⟨rfl, hv⟩,
+        (getEventcount_error_iff s b st en .keyError).mpr ⟨rfl, hv⟩]; rfl
+  | some p =>
+    obtain ⟨m, evs⟩ := p
+    rw [getEvents_eq s b m evs hv, getEventcount_eq s b m evs hv, applyLimit_neg _ (by omega)]
+    show _ = Except.ok _
+    rw [length_selected]
+
+/-- widening the window never lowers the count -/
+theorem count_window_mono (s : St D) (b : String) (st en st' en' : Option Int)
+    (hw : winWider st' en' st en) (n : Nat) (hn : getEventcount s b st en = .ok n) :
+    ∃ n', getEventcount s b st' en' = .ok n' ∧ n ≤ n' := by
+  cases hv : view s b with
+  | none =>
+    rw [(getEventcount_error_iff s b st en .keyError).mpr ⟨rfl, hv⟩] at hn; cases hn
+  | some p =>
+    obtain ⟨m, evs⟩ := p
+    rw [getEventcount_eq s b m evs hv] at hn
+    cases hn
+    exact ⟨_, getEventcount_eq s b m evs hv st' en',
+      length_filter_mono _ _ _ (fun x _ h => inWindow_mono hw x h)⟩
+
+/-- the count for the requested window never exceeds the number of events `Bucket.get` (which
+    reads the rounded window) returns -/
+theorem count_le_get_rounded (s : St D) (b : String) (st en : Option Int) (n : Nat)
+    (hn : getEventcount s b st en = .ok n) :
+    ∃ r, getEvents s b (-1) (roundWin st en).1 (roundWin st en).2 = .ok r ∧ n ≤ r.length := by
+  obtain ⟨n', h1, h2⟩ := count_window_mono s b st en _ _ (roundWin_wider st en) n hn
+  rw [count_eq] at h1
+  cases hg : getEvents s b (-1) (roundWin st en).1 (roundWin st en).2 with
+  | error e => rw [hg] at h1; cases h1
+  | ok r => rw [hg] at h1; cases h1; exact ⟨r, rfl, h2⟩
+
+def exSt : St Unit :=
+  [("a", (default, [⟨some 0, 5000, 4000, ()⟩, ⟨some 1, 7000, 0, ()⟩, ⟨some 2, 5000, 0, ()⟩,
+                    ⟨some 3, 1000, 1000, ()⟩])),
+   ("b", (default, [⟨some 0, 6000, 1000, ()⟩]))]
+
+example : getEvents exSt "a" (-1) (some 5000) (some 6000)
+    = .ok [⟨some 2, 5000, 0, ()⟩, ⟨some 0, 5000, 4000, ()⟩] := rfl
+example : getEvents exSt "a" 1 (some 5000) (some 6000) = .ok [⟨some 2, 5000, 0, ()⟩] := rfl
+example : getEventcount exSt "a" (some 5000) (some 6000) = .ok 2 := rfl
+example : getEvents exSt "c" 1 none none = .error .keyError := rfl
+
+end Aw.Store.Memory
